@@ -1,5 +1,7 @@
-from . import p_table, p_flow
+from . import p_table, p_flow, p_sample, p_matrix
 PROPS = {
-    "C03": p_table.run, "C04": p_table.run, "C05": p_table.run,
+    "C02": p_sample.run, "C03": p_table.run, "C04": p_table.run, "C05": p_table.run,
+    "C06": p_sample.run, "C07": p_sample.run, "C08": p_sample.run, "C09": p_sample.run, "C10": p_sample.run, "C11": p_sample.run,
+    "C15": p_matrix.run, "C16": p_matrix.run,
     "C13": p_flow.run, "C14": p_flow.run, "C19": p_flow.run,
 }
